@@ -1,6 +1,8 @@
 //! Harness for the server_fn properties. `h_serverfn c13` reads cases on stdin (one sexp
 //! per line) and prints one observation per line.
 mod errs;
+mod glue;
+mod looprt;
 
 fn main() {
     let which = std::env::args().nth(1).unwrap_or_default();
@@ -15,7 +17,8 @@ fn main() {
 
 fn c13(c: &vsexp::Sexp) -> vsexp::Sexp {
     match c.at(0).num() {
-        0..=9 => errs::run(c),
+        0..=6 => errs::run(c),
+        7..=9 => glue::run(c),
         _ => vsexp::Lst(vec![]),
     }
 }
